@@ -270,6 +270,8 @@ type Resp struct {
 
 	Dump         string         `json:"dump,omitempty"` // parse: canonical s-expression
 	NLines       int            `json:"nlines,omitempty"`
+	LexFailed   bool           `json:"lex_failed,omitempty"` // parse succeeded although the lexer alone fails on the same text (C05)
+	LexMsg      string         `json:"lex_msg,omitempty"`
 	Toks         []Tok          `json:"toks,omitempty"`
 	IDs          []IDRes        `json:"ids,omitempty"`
 	Steps        []StepRes      `json:"steps,omitempty"`
